@@ -150,6 +150,7 @@ func (t *Tokenizer) tokenizeBuffer(buf []byte, last bool) error {
 		case skipNewline:
 			t.line++
 			t.noff = off
+			i = 0
 			for i, b = range buf[off+1:] {
 				if spaceMap[b] != skipChar {
 					break
@@ -262,6 +263,9 @@ func (t *Tokenizer) tokenizeBuffer(buf []byte, last bool) error {
 			t.num.Reset()
 			t.mode = digitMap
 			t.num.I = uint64(b - '0')
+			if len(buf) <= off+1 {
+				continue
+			}
 			for i, b = range buf[off+1:] {
 				if digitMap[b] != numDigit {
 					break
@@ -390,6 +394,7 @@ func (t *Tokenizer) tokenizeBuffer(buf []byte, last bool) error {
 			t.line++
 			t.noff = off
 			t.mode = afterMap
+			i = 0
 			for i, b = range buf[off+1:] {
 				if spaceMap[b] != skipChar {
 					break
